@@ -773,8 +773,18 @@ class Oracle(stateful.Stateful):
                 f"project at: {self._project_dir}"
             ) from e
 
-        # Empty the ongoing_trials and send them for retry.
+        # Empty the ongoing_trials and send them for retry. The state may have
+        # been saved by `end_trial` while the ended trial was still listed as
+        # ongoing: a trial that already ended, or that is already waiting for
+        # retry, must not be queued (again).
         for _, trial in self.ongoing_trials.items():
+            if trial.status in (
+                trial_module.TrialStatus.COMPLETED,
+                trial_module.TrialStatus.FAILED,
+            ):
+                continue
+            if trial.trial_id in self._retry_queue:
+                continue
             self._retry_queue.append(trial.trial_id)
         self.ongoing_trials = {}
 
